@@ -856,6 +856,11 @@ func (it *interp) decide(st *state, cond AV) (val, known bool, key string, neg b
 				return v != neg, true, key, neg
 			}
 		}
+		if c != nil && c.IsNil && op == "==" {
+			if it.neverNil(st, subj) {
+				return false != neg, true, key, neg
+			}
+		}
 		return false, false, key, neg
 	}
 	key = cond.Key()
@@ -868,6 +873,47 @@ func (it *interp) decide(st *state, cond AV) (val, known bool, key string, neg b
 		}
 	}
 	return false, false, key, neg
+}
+
+// neverNil: subj is a field that only constructors set, to fresh objects (and no constructor is on the stack), or the
+// result of a library function that returns a fresh object on every path.
+func (it *interp) neverNil(st *state, subj AV) bool {
+	e, ok := stripConvAll(subj).(*Expr)
+	if !ok {
+		return false
+	}
+	switch e.Op {
+	case "load", "field":
+		ctors, ok := it.prog.neverNilFields()[e.Name]
+		if !ok {
+			return false
+		}
+		for _, f := range st.frames {
+			if ctors[f.fn] {
+				return false
+			}
+		}
+		return true
+	case "call", "extract":
+		idx := 0
+		ce := e
+		if e.Op == "extract" {
+			i, err := strconv.Atoi(e.Name)
+			inner, isE := e.Args[0].(*Expr)
+			if err != nil || !isE || inner.Op != "call" {
+				return false
+			}
+			idx, ce = i, inner
+		}
+		name := ce.Name
+		if i := strings.Index(name, "@"); i >= 0 {
+			name = name[:i]
+		}
+		if fn := it.prog.FuncOpt(name); fn != nil && it.prog.isLib(fn) {
+			return it.prog.neverNilResult(fn, idx, 0)
+		}
+	}
+	return false
 }
 
 func ivalDecide(iv *ival, op string, c int64) (bool, bool) {
